@@ -6,8 +6,11 @@ package main
 
 import (
 	"fmt"
+	"os"
 	"sync"
 )
+
+var schedDebug = os.Getenv("VX_DEBUG") == "5"
 
 const (
 	thRunnable = iota
@@ -39,6 +42,7 @@ type schedState struct {
 	maxPreempt  int
 	hang        string
 	crash       string
+	evalDepth   int
 	wg          *sync.WaitGroup
 }
 
@@ -123,18 +127,43 @@ func (i *interpreter) noRunnable(t *thread) {
 }
 
 func (i *interpreter) handoff(next *thread) {
+	if schedDebug {
+		cur := "-"
+		if i.sch.cur != nil {
+			cur = i.sch.cur.name
+		}
+		fmt.Fprintf(os.Stderr, "handoff %s -> %s (state %d, what %s)\n", cur, next.name, next.state, next.what)
+	}
 	next.state = thRunning
 	i.sch.cur = next
 	next.resume <- struct{}{}
 }
 
-// enabled reports whether t could run now.
-func (t *thread) enabled() bool {
+type condBlockedT struct{}
+
+// enabled reports whether t could run now. The wake-up condition may be
+// interpreted code (vxWaitUntil); it is evaluated in "evaluation mode": it must
+// not block or yield, and if it would block the thread counts as not enabled.
+func (t *thread) enabled() (ok bool) {
 	switch t.state {
 	case thRunnable:
 		return true
 	case thBlocked:
-		return !t.idle && t.cond != nil && t.cond()
+		if t.idle || t.cond == nil {
+			return false
+		}
+		t.sch.evalDepth++
+		defer func() {
+			t.sch.evalDepth--
+			if r := recover(); r != nil {
+				if _, isCB := r.(condBlockedT); isCB {
+					ok = false
+					return
+				}
+				panic(r)
+			}
+		}()
+		return t.cond()
 	}
 	return false
 }
@@ -175,6 +204,12 @@ func (i *interpreter) pickNext(me *thread) *thread {
 
 // block suspends the current thread until cond holds.
 func (i *interpreter) block(cond func() bool, what string) {
+	if cond() {
+		return
+	}
+	if i.sch.evalDepth > 0 {
+		panic(condBlockedT{})
+	}
 	t := i.sch.cur
 	for !cond() {
 		t.state = thBlocked
@@ -223,7 +258,7 @@ func (i *interpreter) waitIdle() {
 // yieldPoint is a visible event in explore mode: another enabled thread may
 // be scheduled here (bounded number of pre-emptions).
 func (i *interpreter) yieldPoint(ev string) {
-	if i.sch.mode == 0 || len(i.sch.threads) < 2 {
+	if i.sch.mode == 0 || len(i.sch.threads) < 2 || i.sch.evalDepth > 0 {
 		return
 	}
 	if i.sch.preemptions >= i.sch.maxPreempt {
